@@ -672,6 +672,14 @@ def synthetic_definitions():
             ]),
             P("ClusterId", "string", (2, INF), taggedVersions=(2, INF), tag=1, ignorable=True, nullableVersions=(2, INF), default="null"),
             P("Newest", "int64", (3, 3)),
+            dict(kind="struct", name="EpochInfo", type="EpochInfo", versions=(2, INF), taggedVersions=(2, INF), tag=6, fields=[
+                P("Epoch", "int32", (0, INF), default="-1"),
+                P("EndOffset", "int64", (0, INF), default="-1"),
+            ]),
+            dict(kind="struct", name="LeaderInfo", type="LeaderInfo", versions=(2, INF), taggedVersions=(2, INF), tag=7, fields=[
+                P("LeaderId", "int32", (0, INF), default="-1"),
+                P("Rack", "string", (0, INF)),
+            ]),
             P("Reason", "string", (0, INF), taggedVersions=(2, INF), tag=2, ignorable=True),
             P("TransactionalId", "string", (0, INF), nullableVersions=(1, INF), entityType="transactionalId"),
             P("ProducerId", "int64", (1, INF), entityType="producerId"),
@@ -851,9 +859,18 @@ def generated_modules(ctx):
                         if f["kind"] == "prim" and md.get("kafka_type") != f["type"]:
                             problems.append(f"{name}: kafka_type {md.get('kafka_type')!r}, the definition says {f['type']!r}")
                         if f["kind"] == "prim" and f.get("default") is not None:
-                            wd = {"3": "i32(3)", "-1": "i32(-1)", "false": "False", "true": "True", "null": "None"}.get(f["default"])
+                            wd = {"false": "False", "true": "True", "null": "None"}.get(f["default"])
+                            if wd is None and f["type"] in ("int8", "int16", "int32", "int64"):
+                                wd = f"{PY_HINT[f['type']]}({f['default']})"
                             if kws.get("default") != wd:
                                 problems.append(f"{name}: default {kws.get('default')!r}, the definition's default {f['default']!r} is {wd}")
+                        if f["kind"] == "struct" and tagged:
+                            all_def = all(x["kind"] == "prim" and x.get("default") is not None for x in f["fields"])
+                            if all_def and kws.get("default") != f"{f['type']}()":
+                                problems.append(f"{name}: a tagged struct whose members all have defaults must default to {f['type']}() (so that an "
+                                                f"all-default value is omitted from the wire); got default={kws.get('default')!r}")
+                            if not all_def and kws.get("default") == f"{f['type']}()":
+                                problems.append(f"{name}: defaults to {f['type']}() although member(s) have no default")
                         if kws.get("default") == "None" and "None" not in gann:
                             problems.append(f"{name}: default None on a field annotated {gann} (None is not a value of that type)")
                         if f["kind"] == "prim" and f.get("default") is None and not tagged and "default" in kws:
@@ -1075,9 +1092,9 @@ def primitive_array_lines(ctx):
     by_value = {m.value: m for m in members}
     INF = float("inf")
     mk = lambda r: None if r is None else I.call(VR, [r[0], r[1]], {}, Run(), None)
-    problems = {"nullability": [], "tag": [], "name": [], "other": []}
+    problems = {"nullability": [], "tag": [], "name": [], "items": [], "other": []}
     n = 0
-    for kt in ("int32", "string"):
+    for kt in ("int32", "string", "uuid"):
         for tv in (None, (1, INF)):
             for nv in (None, (2, INF)):
                 fld = InstV(PAF, {"name": "ReplicaIds", "versions": mk((0, INF)), "nullableVersions": mk(nv), "ignorable": False, "mapKey": False,
@@ -1106,6 +1123,11 @@ def primitive_array_lines(ctx):
                         problems["name"].append(f"{case}: named {name!r}")
                     if ann.replace(" ", "").endswith("|None") != nullable:
                         problems["nullability"].append(f"{case}: annotated {ann!r}")
+                    inner = ann.replace(" ", "").removesuffix("|None")
+                    want_inner = {"int32": "tuple[i32,...]", "string": "tuple[str,...]", "uuid": "tuple[uuid.UUID|None,...]"}[kt]
+                    if inner != want_inner:
+                        problems["items"].append(f"{case}: items annotated {ann!r}, expected {want_inner} (a uuid is modelled optional everywhere: "
+                                                 f"the all-zero UUID reads as None)")
                     md = ast.literal_eval(kws["metadata"]) if "metadata" in kws else {}
                     if md.get("tag") != (2 if tagged else None) or md.get("kafka_type") != kt:
                         problems["tag"].append(f"{case}: metadata {md}")
